@@ -52,6 +52,14 @@ static void verif_memmove_##tag(void* d, const void* s, uint64_t n) { T* _d=(T*)
 static void verif_memset_##tag(void* d, uint8_t c, uint64_t n) { T* _d=(T*)(d); uint64_t _k=n/sizeof(T); T _v; memset(&_v,c,sizeof(T)); \
   for (uint64_t _i=0; _i<_k; _i++) _d[_i]=_v; \
   for (uint64_t _j=_k*sizeof(T); _j<n; _j++) ((uint8_t*)_d)[_j]=c; }
+/* 64-bit multiplication: exact by default; under -DVERIF_UF_MUL (cbmc build only) an uninterpreted function, which is a sound
+ * abstraction for proving that two computations applying the same products in the same order are equal (hash differentials) */
+#if defined(VERIF_CBMC) && defined(VERIF_UF_MUL)
+uint64_t __CPROVER_uninterpreted_mul64(uint64_t, uint64_t);
+#define VERIF_MUL64(a, b) __CPROVER_uninterpreted_mul64((uint64_t)(a), (uint64_t)(b))
+#else
+#define VERIF_MUL64(a, b) ((uint64_t)((uint64_t)(a) * (uint64_t)(b)))
+#endif
 /* libc functions referenced from the IR (renamed by ll2c to avoid prototype clashes) */
 static inline uint64_t verif_libc_strlen(uint8_t* s){ return strlen((const char*)s); }
 static inline uint32_t verif_libc_memcmp(uint8_t* a, uint8_t* b, uint64_t n){ for (uint64_t i = 0; i < n; i++) if (a[i] != b[i]) return a[i] < b[i] ? (uint32_t)-1 : 1u; return 0; }
